@@ -59,6 +59,12 @@ func RaceSpecs() []Spec {
 			for i := 0; i < nb; i++ {
 				out = append(out, Spec{sc, [][]int{{i}, {i}}})
 			}
+		case ScCopyInside:
+			// every copy point, four copies taken at it, all running the
+			// label/loop continuation while the template runs its own loop
+			for _, ctx := range InsideContexts {
+				out = append(out, insideSpec(ctx, [][]int{{}, {}, {}, {}}))
+			}
 		}
 	}
 	return out
